@@ -6,6 +6,8 @@ except ImportError:
     import pickle
 
 
+from copy import deepcopy
+
 import numpy as np
 
 
@@ -185,6 +187,21 @@ class FitInfo(object):
             return len(self.chi2)
         else:
             raise AttributeError(attribute)
+
+    # The pickled state leaves out the metadata (a file of results stores it
+    # only once), so copies made with the copy module would lose it too
+
+    def __copy__(self):
+        new = FitInfo()
+        new.__setstate__(self.__getstate__())
+        new.meta = self.meta
+        return new
+
+    def __deepcopy__(self, memo):
+        new = FitInfo()
+        new.__setstate__(deepcopy(self.__getstate__(), memo))
+        new.meta = deepcopy(self.meta, memo)
+        return new
 
     def __getstate__(self):
         return {
